@@ -183,7 +183,7 @@ func (f *VerifFleet) havoc() {
 	// commits on writable, online, alive servers (own transactions only)
 	for _, h := range f.Hosts {
 		s := f.Servers[h]
-		nw := verifnd.Uint64("havoc.commit." + h)
+		nw := uint64(verifnd.Byte("havoc.commit." + h))
 		can := verifnd.And(verifnd.And(s.Alive, verifnd.Not(s.ReadOnly)), verifnd.Not(s.Offline))
 		s.Executed = verifnd.IteUint64(can, s.Executed|(nw&s.OwnBits), s.Executed)
 	}
@@ -195,11 +195,11 @@ func (f *VerifFleet) havoc() {
 		}
 		src := f.Servers[s.Source]
 		if src != nil {
-			got := verifnd.Uint64("havoc.io." + h)
+			got := uint64(verifnd.Byte("havoc.io." + h))
 			can := verifnd.And(verifnd.And(s.Alive, s.IORunning), src.Alive)
 			s.Retrieved = verifnd.IteUint64(can, s.Retrieved|(got&src.Executed), s.Retrieved)
 		}
-		ap := verifnd.Uint64("havoc.sql." + h)
+		ap := uint64(verifnd.Byte("havoc.sql." + h))
 		can := verifnd.And(s.Alive, s.SQLRunning)
 		s.Executed = verifnd.IteUint64(can, s.Executed|(ap&s.Retrieved), s.Executed)
 	}
